@@ -6,6 +6,7 @@ From Goit Require Import Bytes Tree Index IndexFacts.
 From Goit Require Import Obj World Repo Inv SnapshotFacts.
 From Goit Require Import Bridge.
 From Goit Require Import BranchFacts ExactFacts AddressFacts.
+From Goit Require OutputFacts.
 Import ListNotations.
 
 (* T0 (tie to the source): every regexp literal of the current Go source denotes
@@ -147,3 +148,20 @@ Print Assumptions C06_beneath_means_slash.
 Print Assumptions C06_directory_selection_on_every_history.
 Print Assumptions C06_lookalikes_never_selected.
 Print Assumptions C06_unmatched_name_refused.
+
+(* the staging-area FILE of every reachable repository reads back: what Goit writes for the staging
+   area decodes to the same entry list, as long as the two bounds of the file format hold (a 32-bit
+   entry count, a 16-bit path length; the second is shown necessary by a witness: a path of 65536
+   bytes is written with length 0) *)
+Theorem C06_index_file_reads_back_on_every_reachable_repository : forall w,
+  Reachable w -> w_coll w = false -> SmallStore (w_objs w) ->
+  (N.of_nat (length (idx_of w)) < 2 ^ 32)%N ->
+  Forall OutputFacts.short_path (idx_of w) ->
+  decode_index (encode_index (idx_of w)) = Some (idx_of w).
+Proof. exact OutputFacts.reachable_index_roundtrip. Qed.
+
+Theorem C06_path_length_bound_is_the_formats :
+  decode_index (encode_index [OutputFacts.long_entry]) = Some [mkE (repeat x00 20) []].
+Proof. exact OutputFacts.long_path_not_lossless. Qed.
+Print Assumptions C06_index_file_reads_back_on_every_reachable_repository.
+Print Assumptions C06_path_length_bound_is_the_formats.
